@@ -171,6 +171,19 @@ Section Batch.
     - destruct (Z.of_nat (length tmp) =? n)%Z; [discriminate|].
       intros H. apply IH in H. destruct H as [H _]. now destruct tmp.
   Qed.
+
+  (* a line count <= 0 never matches len(tmp) again once an item is in: nothing is flushed *)
+  Lemma batch_go_noflush (n : Z) (fill : option A) : (n <= 0)%Z ->
+    forall xs tmp, tmp <> [] -> batch_go n fill tmp xs = [tmp ++ xs].
+  Proof.
+    intros Hn. induction xs as [|x r IH]; intros tmp Hne; cbn [batch_go].
+    - destruct tmp as [|t tmp']; [congruence|]. rewrite app_nil_r.
+      destruct fill as [f|]; [|reflexivity].
+      destruct (Z.ltb_spec (Z.of_nat (length (t :: tmp'))) n) as [H|_]; [cbn [length] in H; lia|reflexivity].
+    - destruct (Z.eqb_spec (Z.of_nat (length tmp)) n) as [H|_].
+      + destruct tmp; [congruence|cbn [length] in H; lia].
+      + rewrite IH by (destruct tmp; discriminate). now rewrite <- app_assoc.
+  Qed.
 End Batch.
 
 (* ------------------------------------------------------------------ unique *)
